@@ -323,30 +323,38 @@ def report(rep, name, ex):
             rep.inconclusive.append('%s: counterexample %s did not reproduce natively (%s): %s' % (name, v.kind, nat.get('why'), path))
 
 def interleaved_events(cex, mdl):
-    """Native event order from the model's trail: first poll of a poll_height task = the periodic poll starts,
-    `lin get_info` = its answer arrives, first poll of a new_block task = the notification is handled."""
+    """Native event order from the model's trail.  Tasks 0..k-1 are the notifications n0..n(k-1), the following ones the
+    polls p0...  First poll of a poll_height task = the periodic poll starts (its getinfo call goes out); the answer is
+    handed over when the model polls that task again after `lin get_info` (natively an answer makes the task run at
+    once); first poll of a new_block task = the notification is handled."""
     import re as _re
+    n_notif = len([k for k in mdl if _re.match(r'^n\d+$', k)])
     ev = []
     seen = set()
-    order_n, order_p = [], []
-    in_flight = False
+    in_flight = None          # tid of the poll whose getinfo is outstanding
+    answer_ready = False
+    polls_answered = 0
     for stp in cex.get('trail', []):
         lab = stp['step']
         mm = _re.match(r'^poll (new_block|poll_height)#(\d+)$', lab)
-        if mm and mm.group(2) not in seen:
-            seen.add(mm.group(2))
-            if mm.group(1) == 'new_block':
-                k = len(order_n)
-                order_n.append(mm.group(2))
-                ev.append({'op': 'notify', 'h': int(mdl.get('n%d' % k, 0) or 0)})
-            elif not in_flight:
-                in_flight = True
-                ev.append({'op': 'poll_start'})
-        if lab.startswith('lin get_info#') and in_flight:
-            k = len(order_p)
-            order_p.append(lab)
-            ev.append({'op': 'poll_answer', 'h': int(mdl.get('p%d' % k, 0) or 0)})
-            in_flight = False
+        if mm:
+            tid = int(mm.group(2))
+            if mm.group(1) == 'new_block' and tid not in seen:
+                seen.add(tid)
+                ev.append({'op': 'notify', 'h': int(mdl.get('n%d' % tid, 0) or 0)})
+            elif mm.group(1) == 'poll_height':
+                if tid not in seen and in_flight is None:
+                    seen.add(tid)
+                    in_flight = tid
+                    ev.append({'op': 'poll_start'})
+                elif tid == in_flight and answer_ready:
+                    ev.append({'op': 'poll_answer', 'h': int(mdl.get('p%d' % polls_answered, 0) or 0)})
+                    polls_answered += 1
+                    in_flight, answer_ready = None, False
+        elif lab.startswith('lin get_info#') and in_flight is not None:
+            answer_ready = True
+    if in_flight is not None and answer_ready:
+        ev.append({'op': 'poll_answer', 'h': int(mdl.get('p%d' % polls_answered, 0) or 0)})
     return ev
 
 def native_check(cex):
